@@ -139,7 +139,7 @@ Outcome(c) == RunFrom(S0(c))
 Exact(c, x) ==
   /\ x.ruid = CfgU(c) /\ x.euid = CfgU(c) /\ x.suid = CfgU(c)
   /\ x.rgid = CfgG(c) /\ x.egid = CfgG(c) /\ x.sgid = CfgG(c)
-  /\ (c.init /\ Known(c)) => x.groups = UG(CfgU(c)) \cup {CfgG(c)}
+  /\ (c.init /\ Known(c) /\ c.user # "unset") => x.groups = UG(CfgU(c)) \cup {CfgG(c)}
 
 (* application code only ever runs with exactly the configured identity *)
 WorkerCredsExact == (s.loaded => Exact(s.case, s.atload)) /\ (s.end = "running" => Exact(s.case, s.w))
